@@ -135,7 +135,7 @@ def register_backend(scheme: str, backend_class: Type[Backend]) -> None:
     _backends_map[scheme] = backend_class
 
 
-RE_URI_SCHEME = re.compile(r"^([a-zA-Z][a-zA-Z+\-\.]*):")
+RE_URI_SCHEME = re.compile(r"^([a-zA-Z][a-zA-Z0-9+\-\.]*):")
 
 
 def get_backend(url: str) -> Type[Backend]:
